@@ -1104,7 +1104,23 @@ class FunctionAnalysis:
     def call_repo(self, fi: FunctionInfo, pos, kwargs, n, env, receiver_bound=False, star=(), self_origin=None) -> AV:
         self.summary.repo_calls.append((fi.qualname, n))
         s = self.oa.summary(fi.qualname)
-        return self.apply_summary(s, fi, pos, kwargs, n, env, star=star, self_origin=self_origin)
+        r = self.apply_summary(s, fi, pos, kwargs, n, env, star=star, self_origin=self_origin)
+        decos = [ast.unparse(d) for d in getattr(fi.node, "decorator_list", [])]
+        if any(d.split("(")[0].rsplit(".", 1)[-1] in ("lru_cache", "cache", "cached", "memoize") for d in decos):
+            # a memoised function hands the SAME objects to every caller with equal arguments: what it returns is shared,
+            # module-level state (mutating it in place changes what later calls receive)
+            g = Origin(f"global:{fi.qualname}.<memo>")
+
+            def share(av, depth=0):
+                if av is None or depth > 3:
+                    return av
+                if av.kind in ("scalar", "str", "none"):
+                    return av
+                items = tuple(share(x, depth + 1) for x in av.items) if av.items else ()
+                return AV(av.is_ | frozenset([g]), share(av.elem, depth + 1), av.kind if av.kind != "unknown" else "nd",
+                          av.cls, av.funcs, av.depth, items)
+            r = share(r)
+        return r
 
     def bind(self, fi: FunctionInfo, pos, kwargs, star=()) -> Dict[str, AV]:
         a = fi.node.args
